@@ -22,7 +22,7 @@ import optax
 from jax import numpy as jnp
 from jax import random as jr
 
-from lerax.algorithm import DQN, SAC
+from lerax.algorithm import DQN, SAC, AbstractOffPolicyAlgorithm
 from lerax.policy import AbstractSACPolicy
 
 from ..classes import offpolicy as classes  # noqa: F401
@@ -93,6 +93,36 @@ class SimSACBehaviour(AbstractSACPolicy):
         return self._next(state), a, lp
 
 
+class NoUpdateLearner(AbstractOffPolicyAlgorithm):
+    """Minimal off-policy learner on the documented hooks: collects experience, never changes the policy."""
+
+    optimizer: optax.GradientTransformation
+    buffer_size: int
+    gamma: float
+    learning_starts: int
+    num_envs: int
+    num_steps: int
+    batch_size: int
+
+    def __init__(self, *, buffer_size, learning_starts, num_envs, num_steps, batch_size):
+        self.optimizer = optax.sgd(0.0)
+        self.buffer_size = buffer_size
+        self.gamma = 0.9
+        self.learning_starts = learning_starts
+        self.num_envs = num_envs
+        self.num_steps = num_steps
+        self.batch_size = batch_size
+
+    def per_step(self, step_state):
+        return step_state
+
+    def per_iteration(self, state):
+        return state
+
+    def train(self, policy, opt_state, buffer, *, key):
+        return policy, opt_state, {}
+
+
 class TableCritic(eqx.Module):
     """Q(s, a) = q[s] + w * sum(a): tabular in the state, linear in the action."""
 
@@ -143,6 +173,10 @@ class Runner:
             )
             if cls.get("sgd", True):
                 algo = eqx.tree_at(lambda a: a.optimizer, algo, optax.sgd(self.sgd_lr), is_leaf=lambda x: isinstance(x, optax.GradientTransformation))
+            if cls.get("base_learner"):
+                # a learner built on the documented extension points only (per_step / per_iteration / train): it INHERITS
+                # reset / iteration / collect_* from AbstractOffPolicyAlgorithm, which DQN and SAC partly override
+                algo = NoUpdateLearner(buffer_size=cls["buffer"], learning_starts=cls["starts"], num_envs=cls["n"], num_steps=cls["T"], batch_size=cls["batch"])
         else:
             d = len(self.comps) if self.kind == "box" else 1
             self.d = d
@@ -362,9 +396,9 @@ class Runner:
             if "C12" in props and cls.get("iid_probe") and n > 1:
                 self._iid_check(res, bufs, cls["starts"], expected_pos, "iterations")
             new_snaps = self._snapshot(state)
-            if "C10" in props:
+            if "C10" in props and not cls.get("base_learner"):
                 self._check_schedule(res, plan, it_before, int(state.iteration_count), snaps, new_snaps)
-            if "C07" in props:
+            if "C07" in props and not cls.get("base_learner"):
                 self._last_rows = None
                 self._check_td(res, plan, bufs, snaps, new_snaps, log, gamma, expected_pos)
                 if cls["algo"] == "DQN" and self._last_rows is not None:
@@ -403,7 +437,7 @@ class Runner:
 
     def _snapshot(self, state) -> dict:
         if self.cls["algo"] == "DQN":
-            q, qt = jax.device_get((state.policy.q, state.target_policy.q))
+            q, qt = jax.device_get((state.policy.q, state.policy.q if self.cls.get("base_learner") else state.target_policy.q))
             return {"q": np.asarray(q, dtype=np.float64), "qt": np.asarray(qt, dtype=np.float64), "q32": np.asarray(q), "qt32": np.asarray(qt)}
         s = jax.device_get((state.qf1, state.qf2, state.qf1_target, state.qf2_target, state.policy.theta, state.log_alpha))
         return {
@@ -618,6 +652,32 @@ class Runner:
             res.fail("C07", "targets_not_trained", "direct_train_step_is_not_the_semi_gradient_step", entry=[int(bad[0]), int(bad[1])], got=float(got[tuple(bad)]), expected=float(ref_q[tuple(bad)]))
         else:
             res.ok("C07", "targets_not_trained")
+        # the same entry point on a CRAFTED batch: the stored flags are overwritten with all four (done, timeout) combinations,
+        # including (False, True), which the collector never writes; the target rule r + gamma*(1 - terminated)*V' with
+        # terminated = done and not timeout must hold for whatever batch the loss is given
+        combos = [(False, False), (True, False), (True, True), (False, True)]
+        buf = state.step_state.buffer
+        shape = np.asarray(buf.dones).shape
+        slot = np.arange(int(np.prod(shape))).reshape(shape)
+        dn = np.vectorize(lambda j: combos[j % 4][0])(slot)
+        to = np.vectorize(lambda j: combos[j % 4][1])(slot)
+        buf2 = eqx.tree_at(lambda b: (b.dones, b.timeouts), buf, (jnp.asarray(dn), jnp.asarray(to)))
+        rows2 = []
+        cap = self.cap
+        per_node = len(rows) // self.n
+        for j, r in enumerate(rows):
+            i, idx = divmod(j, per_node)
+            k = (i * cap + idx) if self.n > 1 else idx
+            r2 = {kk: v for kk, v in r.items() if kk != "term_true"}
+            r2["done"], r2["timeout"] = combos[k % 4]
+            rows2.append(r2)
+        new2, _, _ = self._jtrain(algo, state.policy, state.opt_state, buf2, jr.key(key_int ^ 0x3D3D))
+        got2 = np.asarray(jax.device_get(new2.q), dtype=np.float64)
+        ref2, _, _ = dqn_reference_step(q, q, rows2, gamma, self.sgd_lr, qb)
+        if not np.allclose(got2, ref2, rtol=0, atol=3e-5 * max(1.0, float(np.max(np.abs(ref2))))):
+            res.fail("C07", "dqn_target_formula", "crafted_flag_combinations_not_handled_by_the_target_rule", combos=[list(c) for c in combos])
+        else:
+            res.ok("C07", "dqn_target_formula", len(rows2))
 
     def _dqn_cause(self, old, rows, gamma, got, scale, qbias=None):
         """Name a wrong DQN target rule by trying the usual suspects."""
